@@ -265,7 +265,15 @@ Definition replay_ok (i : val) (e41 : val) : bool :=
   let auto := as_bool (nth_val 2 cfg) in
   let j := a1 e41 in
   let H := put_hist j evs in
-  let B := match kind with 1 => lastn cap H | 2 => H | _ => [] end in
+  (* 1: the last cap accepted events; 2: all of them; 3: a ValidReplayer (TTL 1000 s) whose clock jumps +600 s right after
+     the m-th accepted Put and +500 s right after the (m+k)-th, cap = 100 m + k: once m+k events are accepted the first m are
+     expired for every later Replay, before that none is *)
+  let B := match kind with
+           | 1 => lastn cap H
+           | 2 => H
+           | 3 => if (Nat.div cap 100 + Nat.modulo cap 100 <=? length H)%nat then skipn (Nat.div cap 100) H else H
+           | _ => []
+           end in
   let lastid := match find (is_ev 1 j) evs with Some e => id_of (nth_val 3 e) | None => None end in
   let tj := topics_of 1 j evs in
   let expected :=
